@@ -9,7 +9,7 @@
 //   the members are exactly the callee results in order (identity, key length / first unit), cursor = end of match,
 //   Undefined => cursor >= length (failure sentinel, which is also every callee's postcondition).
 // Contracts:  pre(parseValue): offset < length;  pre(parseObject/parseArray): offset <= length;
-//             post(parse*): offset' > offset; defined => offset' <= length; Undefined => offset' >= length
+//             post(parseValue): offset' > offset; post(containers): offset' >= offset; defined => offset' <= length; Undefined => offset' >= length
 //             pre(UnEscape(p,n)): [p,p+n) inside the buffer;  post: r <= n (0 = malformed string)
 //             pre(stringToNumber): offset < end;  post: offset <= offset' <= end; offset' > offset unless NotANumber
 // By induction on nesting depth: Parse accepts exactly the texts of the grammar (relative to the string and number
@@ -38,8 +38,8 @@ static void value_stub(V *out, const C *c, unsigned *off, unsigned len, bool str
     vf_assert(strict ? (*off < len) : (*off <= len), 21);
     unsigned k = nv; vf_assert(k < L + 2, 22);
     bool def = vf_u8() & 1; unsigned id = vf_u8();
-    unsigned o = vf_u32(); vf_assume(o > *off && o < 0xFFFFFF00u);
-    vf_assume(def ? (o <= len) : (o >= len));
+    unsigned o = vf_u32(); vf_assume((strict ? (o > *off) : (o >= *off)) && o < 0xFFFFFF00u);
+    vf_assume(def ? (o <= len && o > *off) : (o >= len));
     new (out) V{};
     if (def) { out->type_ = ValueType::UIntLong; out->payload_ = id; }
     vcalls[k].in = *off; vcalls[k].out = o; vcalls[k].def = def; vcalls[k].id = id; nv = k + 1;
